@@ -15,7 +15,7 @@ Everything here works on the compiler facts (MIR expressions / CFG); nothing mat
 import re
 
 from . import analyses as A
-from .model import E, short_path
+from .model import E, short_path, CallSite as CallSiteT
 
 WRAPPERS = {"Option::ok_or_else", "Option::ok_or", "Result::map_err", "Result::ok", "Option::ok_or_else"}
 
@@ -180,6 +180,16 @@ def must_pass(fn, src, through):
     return not any(b in r for b in ret_blocks(fn))
 
 
+def must_pass_to_ok(fn, src, through):
+    """Every normal path from block src to an Ok-constructing exit passes through one of the blocks `through`
+    (paths that end in an Err exit abort the transaction and are not constrained)."""
+    through = set(through)
+    if src in through:
+        return True
+    r = fn.reachable_from(src, avoid_blocks=tuple(through))
+    return not any(b in r for b in fn.ok_exit_blocks())
+
+
 def try_ok_block(fn, cs):
     """For a call whose result is `?`-propagated: (switch_bb, continue_bb, break_bb) or None."""
     from . import anchor
@@ -214,10 +224,12 @@ def err_exit_source(fn, bb, e):
     return None
 
 
-def atomic_update(ctx, key, fn, fallible_mut_calls=()):
+def atomic_update(ctx, key, fn, fallible_mut_calls=(), accessors=()):
     """A3(b): after the first store through a `&mut` parameter no Err exit is reachable. A call that receives a `&mut`
     reborrow of (part of) a `&mut` parameter counts as a store; it may fail itself (`?` on that very call) only if its
-    callee is listed in fallible_mut_calls (such a callee must be atomic itself — shown by its own instance)."""
+    callee is listed in fallible_mut_calls (such a callee must be atomic itself — shown by its own instance).
+    `accessors`: callees that merely return a `&mut` into the state (lookups) — not writes; stores through any local
+    `&mut` reference (e.g. the one such an accessor returned) are counted as state writes."""
     muts = [fn.locals[i + 1][1] for i in range(fn.arg_count) if fn.locals[i + 1][0].startswith("&mut")]
     if not muts:
         ctx.ob(key, False, "%s has no &mut parameter" % fn.short, where=fn.where())
@@ -229,10 +241,14 @@ def atomic_update(ctx, key, fn, fallible_mut_calls=()):
         pl = s[1]
         if len(pl) > 1 and 0 < pl[0] <= fn.arg_count and fn.locals[pl[0]][1] in muts:
             sites.append((bb, "store " + A._place_path(fn, pl), None))
+        elif len(pl) > 1 and pl[1] == "*" and pl[0] > fn.arg_count and fn.locals[pl[0]][0].startswith("&mut"):
+            sites.append((bb, "store " + A._place_path(fn, pl), None))
         if s[0] == "=" and s[2][0] in ("ref", "rawptr") and s[2][1] in ("mut", "Mut"):
             src = s[2][2]
             if 0 < src[0] <= fn.arg_count and fn.locals[src[0]][1] in muts:
                 users = [c for c in fn.calls if any(isinstance(a, list) and a and a[0] == pl[0] for a in c.args)]
+                if users and all(any(re.search(x, c.name or "") for x in accessors) for c in users):
+                    continue
                 if users:
                     for c in users:
                         sites.append((c.bb, "call " + c.rshort + "(&mut " + A._place_path(fn, src) + ")", c))
@@ -284,3 +300,29 @@ def facts_at(fn, bb):
 
 def fact_strs(facts):
     return ["%s %s %s" % (a, o, b) if b is not None else "%s is %s" % (a, o) for (o, a, b) in facts]
+
+
+def phi_defs(fn, op, _depth=0):
+    """Definitions of the value of a place operand, following single-definition copies:
+    [(bb, E)] — one entry per assignment of the first local (on the copy chain) that has several definitions
+    (or the single non-copy definition). Lets a rule ask under which branch facts each alternative is chosen."""
+    if isinstance(op, dict) or len(op) != 1 or _depth > 12:
+        return [(None, fn.expr(op))]
+    n = op[0]
+    if 0 < n <= fn.arg_count:
+        return [(None, fn.local_expr(n))]
+    ds = [d for d in fn.defs().get(n, []) if d[2] == ()]
+    if len(ds) == 1:
+        bb, si, _p, rv = ds[0]
+        if not isinstance(rv, CallSiteT) and rv[0] == "use" and isinstance(rv[1], list):
+            return phi_defs(fn, rv[1], _depth + 1)
+        return [(bb, fn._rvalue_expr(rv, 0, ()))]
+    return [(bb, fn._rvalue_expr(rv, 0, ())) for (bb, si, _p, rv) in ds]
+
+
+def guard_truth(fn, bb, cond_re):
+    """Truth value (True/False/None) of the dominating boolean guard whose condition matches cond_re at block bb."""
+    for c, t in fn.bool_guards(bb):
+        if re.search(cond_re, str(c)):
+            return t
+    return None
